@@ -1,12 +1,538 @@
-//! C05 — not built yet.
-use crate::runner::{Outcome, Summary};
-use crate::Ctx;
-use serde_json::Value;
+//! C05 — numeric literals are parsed to their exact value or rejected.
+//!
+//! replay: TLC cases from spec/mc/MC_NumLiteral.tla {chars, sign, single, wf, isfloat, mant, e10, exp{dom}, pos{name->dom}}
+//!         The spelling is written into every operand position of the grammar (one template per position name),
+//!         parsed with the real parser, and the operand is extracted by pattern matching.
+//!         VIOLATION iff the real parser yields a value that is not the mathematical value of the spelling in the
+//!         right kind (integer stays integer, real stays real, reals rounded to nearest by `str::parse::<f64>` of the
+//!         model's exact decimal).  Accept/reject disagreement with the model is MODEL-DIVERGENCE.
+//! drive:  seeded random spellings far beyond the exhaustive bound (long digit strings in every radix, many
+//!         separators, exponent forms); events reset/char*/end/opinion/parsed go to spec/trace/NumLiteralTrace.tla,
+//!         where TLC recomputes the value with the module's digit arithmetic.
 
-pub fn replay(_ctx: &Ctx, _case: &Value) -> Outcome {
-    panic!("C05: replay not implemented")
+use crate::runner::{Outcome, Summary, Violation};
+use crate::util::{self, s};
+use crate::Ctx;
+use quil_rs::expression::{Expression, PrefixOperator};
+use quil_rs::instruction::{
+    ArithmeticOperand, AttributeValue, BinaryOperand, ComparisonOperand, GateSpecification, Instruction,
+    PragmaArgument, Qubit, UnresolvedCallArgument,
+};
+use quil_rs::Program;
+use rand::seq::SliceRandom;
+use rand::Rng;
+use serde_json::{json, Value};
+use std::str::FromStr;
+
+/// (position name, operand domain, template with `{}` for the literal, imaginary part?)
+pub const POSITIONS: &[(&str, &str, &str)] = &[
+    ("MOVE", "signed", "MOVE ro {}"),
+    ("ADD", "signed", "ADD ro {}"),
+    ("EQ", "signed", "EQ a b {}"),
+    ("STORE", "signed", "STORE r q[0] {}"),
+    ("AND", "signedint", "AND ro {}"),
+    ("QUBIT", "unsigned", "X {}"),
+    ("MEMIDX", "unsigned", "MOVE ro[{}] 1"),
+    ("DECLLEN", "unsigned", "DECLARE ro BIT[{}]"),
+    ("OFFSET", "unsigned", "DECLARE ro BIT[2] SHARING b OFFSET {} BIT"),
+    ("PRAGMA", "unsigned", "PRAGMA foo {}"),
+    ("PERM", "unsigned", "DEFGATE P AS PERMUTATION:\n    0, {}"),
+    ("MEASURE", "unsigned", "MEASURE {} ro[0]"),
+    ("GATEPARAM", "expr", "RX({}) 0"),
+    ("IMAG", "expr", "RX({}i) 0"),
+    ("DELAY", "expr", "DELAY 0 \"rf\" {}"),
+    ("WFPARAM", "expr", "PULSE 0 \"rf\" flat(duration: {})"),
+    ("SETPHASE", "expr", "SET-PHASE 0 \"rf\" {}"),
+    ("FRAMEATTR", "expr", "DEFFRAME 0 \"rf\":\n    SAMPLE-RATE: {}"),
+    ("WFMATRIX", "expr", "DEFWAVEFORM w:\n    {}, 1"),
+    ("GATEMATRIX", "expr", "DEFGATE G AS MATRIX:\n    {}, 0\n    0, 1"),
+    ("RAWCAPTURE", "expr", "RAW-CAPTURE 0 \"rf\" {} ro"),
+    ("CALL", "imm", "CALL foo {}"),
+];
+
+#[derive(Debug, Clone, PartialEq)]
+pub enum Got {
+    Err,
+    /// signed integer operand
+    Int(i128),
+    /// real operand or expression literal: prefix minus / negative sign, real part, imaginary part
+    Real { neg: bool, re: f64, im: f64 },
+    /// parsed, but there is no literal where the spelling was written
+    Other(String),
 }
 
-pub fn drive(_ctx: &Ctx) -> Summary {
-    panic!("C05: drive not implemented")
+fn expr_got(e: &Expression) -> Got {
+    match e {
+        Expression::Number(c) => Got::Real { neg: false, re: c.re, im: c.im },
+        Expression::Prefix(p) if p.operator == PrefixOperator::Minus => match &*p.expression {
+            Expression::Number(c) => Got::Real { neg: true, re: c.re, im: c.im },
+            other => Got::Other(format!("{other:?}")),
+        },
+        other => Got::Other(format!("{other:?}")),
+    }
+}
+
+fn real_got(v: f64) -> Got {
+    Got::Real { neg: v.is_sign_negative(), re: v.abs(), im: 0.0 }
+}
+
+fn arith_got(a: &ArithmeticOperand) -> Got {
+    match a {
+        ArithmeticOperand::LiteralInteger(v) => Got::Int(*v as i128),
+        ArithmeticOperand::LiteralReal(v) => real_got(*v),
+        other => Got::Other(format!("{other:?}")),
+    }
+}
+
+fn qubit_got(q: Option<&Qubit>) -> Got {
+    match q {
+        Some(Qubit::Fixed(v)) => Got::Int(*v as i128),
+        other => Got::Other(format!("{other:?}")),
+    }
+}
+
+/// Parse `text` and extract the operand at position `name`.
+pub fn observe(name: &str, text: &str) -> Got {
+    let program = match Program::from_str(text) {
+        Ok(p) => p,
+        Err(_) => return Got::Err,
+    };
+    let instrs = program.to_instructions();
+    let Some(first) = instrs.first() else { return Got::Other("empty program".into()) };
+    let other = || Got::Other(format!("{first:?}"));
+    match (name, first) {
+        ("MOVE", Instruction::Move(m)) => arith_got(&m.source),
+        ("ADD", Instruction::Arithmetic(a)) => arith_got(&a.source),
+        ("STORE", Instruction::Store(st)) => arith_got(&st.source),
+        ("EQ", Instruction::Comparison(c)) => match &c.rhs {
+            ComparisonOperand::LiteralInteger(v) => Got::Int(*v as i128),
+            ComparisonOperand::LiteralReal(v) => real_got(*v),
+            _ => other(),
+        },
+        ("AND", Instruction::BinaryLogic(b)) => match &b.source {
+            BinaryOperand::LiteralInteger(v) => Got::Int(*v as i128),
+            _ => other(),
+        },
+        ("QUBIT", Instruction::Gate(g)) if g.qubits.len() == 1 => qubit_got(g.qubits.first()),
+        ("MEMIDX", Instruction::Move(m)) => Got::Int(m.destination.index as i128),
+        ("DECLLEN", Instruction::Declaration(d)) => Got::Int(d.size.length as i128),
+        ("OFFSET", Instruction::Declaration(d)) => match d.sharing.as_ref().and_then(|sh| sh.offsets.first()) {
+            Some(off) => Got::Int(off.offset as i128),
+            None => other(),
+        },
+        ("PRAGMA", Instruction::Pragma(p)) => match p.arguments.first() {
+            Some(PragmaArgument::Integer(v)) => Got::Int(*v as i128),
+            _ => other(),
+        },
+        ("PERM", Instruction::GateDefinition(d)) => match &d.specification {
+            GateSpecification::Permutation(p) if p.len() == 2 => Got::Int(p[1] as i128),
+            _ => other(),
+        },
+        ("MEASURE", Instruction::Measurement(m)) => qubit_got(Some(&m.qubit)),
+        ("GATEPARAM", Instruction::Gate(g)) | ("IMAG", Instruction::Gate(g)) if g.parameters.len() == 1 => {
+            expr_got(&g.parameters[0])
+        }
+        ("DELAY", Instruction::Delay(d)) => expr_got(&d.duration),
+        ("WFPARAM", Instruction::Pulse(p)) => match p.waveform.parameters.get("duration") {
+            Some(e) => expr_got(e),
+            None => other(),
+        },
+        ("SETPHASE", Instruction::SetPhase(sp)) => expr_got(&sp.phase),
+        ("FRAMEATTR", Instruction::FrameDefinition(f)) => match f.attributes.get("SAMPLE-RATE") {
+            Some(AttributeValue::Expression(e)) => expr_got(e),
+            _ => other(),
+        },
+        ("WFMATRIX", Instruction::WaveformDefinition(w)) => match w.definition.matrix.first() {
+            Some(e) => expr_got(e),
+            None => other(),
+        },
+        ("GATEMATRIX", Instruction::GateDefinition(d)) => match &d.specification {
+            GateSpecification::Matrix(m) if !m.is_empty() && !m[0].is_empty() => expr_got(&m[0][0]),
+            _ => other(),
+        },
+        ("RAWCAPTURE", Instruction::RawCapture(r)) => expr_got(&r.duration),
+        ("CALL", Instruction::Call(c)) => match c.arguments.first() {
+            Some(UnresolvedCallArgument::Immediate(v)) => Got::Real { neg: false, re: v.re, im: v.im },
+            _ => other(),
+        },
+        _ => other(),
+    }
+}
+
+pub fn render(template: &str, sign: &str, lit: &str) -> String {
+    template.replace("{}", &format!("{sign}{lit}"))
+}
+
+/// little-endian base-10000 limbs -> decimal string
+fn limbs_to_decimal(v: &Value) -> String {
+    let limbs: Vec<u64> = v.as_array().map(|a| a.iter().map(|x| x.as_u64().unwrap()).collect()).unwrap_or_default();
+    let mut out = String::new();
+    for (k, l) in limbs.iter().rev().enumerate() {
+        if k == 0 {
+            out.push_str(&l.to_string());
+        } else {
+            out.push_str(&format!("{l:04}"));
+        }
+    }
+    if out.is_empty() {
+        out.push('0');
+    }
+    out
+}
+
+/// The mathematical value of a spelling, computed by the harness on its own (cross-check of the model's value).
+/// Returns (is_float, mantissa decimal string without leading zeros, e10).
+pub fn own_math(lit: &str) -> Option<(bool, String, i64)> {
+    let lower = lit.to_ascii_lowercase();
+    let strip = |t: &str| t.trim_start_matches('0').to_string();
+    let norm = |t: String| if t.is_empty() { "0".to_string() } else { t };
+    for (p, r) in [("0x", 16u32), ("0o", 8), ("0b", 2)] {
+        if let Some(rest) = lower.strip_prefix(p) {
+            let digits: String = rest.chars().filter(|c| *c != '_').collect();
+            if digits.len() > 40 {
+                // beyond u128 for hex; use a small big-number routine
+                return Some((false, big_from_radix(&digits, r)?, 0));
+            }
+            let v = if digits.is_empty() { 0 } else { u128::from_str_radix(&digits, r).ok()? };
+            return Some((false, v.to_string(), 0));
+        }
+    }
+    let clean: String = lower.chars().filter(|c| *c != '_').collect();
+    let (mant, exp) = match clean.find('e') {
+        Some(k) => (&clean[..k], Some(&clean[k + 1..])),
+        None => (&clean[..], None),
+    };
+    let (ip, fp) = match mant.find('.') {
+        Some(k) => (&mant[..k], Some(&mant[k + 1..])),
+        None => (mant, None),
+    };
+    if !ip.chars().all(|c| c.is_ascii_digit()) || !fp.unwrap_or("").chars().all(|c| c.is_ascii_digit()) {
+        return None;
+    }
+    let is_float = fp.is_some() || exp.is_some();
+    let e: i64 = match exp {
+        Some(t) => {
+            let (neg, d) = match t.strip_prefix('-') {
+                Some(d) => (true, d),
+                None => (false, t.strip_prefix('+').unwrap_or(t)),
+            };
+            if d.is_empty() || !d.chars().all(|c| c.is_ascii_digit()) {
+                return None;
+            }
+            let dz = d.trim_start_matches('0');
+            let v: i64 = if dz.is_empty() { 0 } else { dz.parse::<i64>().unwrap_or(100000).min(100000) };
+            if neg { -v } else { v }
+        }
+        None => 0,
+    };
+    let digits = format!("{}{}", ip, fp.unwrap_or(""));
+    Some((is_float, norm(strip(&digits)), e - fp.map(|f| f.len() as i64).unwrap_or(0)))
+}
+
+fn big_from_radix(digits: &str, radix: u32) -> Option<String> {
+    // decimal digits, little endian
+    let mut dec: Vec<u32> = vec![0];
+    for c in digits.chars() {
+        let d = c.to_digit(radix)?;
+        let mut carry = d;
+        for x in dec.iter_mut() {
+            let v = *x * radix + carry;
+            *x = v % 10;
+            carry = v / 10;
+        }
+        while carry > 0 {
+            dec.push(carry % 10);
+            carry /= 10;
+        }
+    }
+    let sx: String = dec.iter().rev().map(|d| char::from_digit(*d, 10).unwrap()).collect();
+    let t = sx.trim_start_matches('0');
+    Some(if t.is_empty() { "0".into() } else { t.to_string() })
+}
+
+/// the correctly rounded double of mant * 10^e10
+fn nearest_f64(mant: &str, e10: i64) -> f64 {
+    format!("{mant}e{e10}").parse::<f64>().expect("decimal parses")
+}
+
+/// The property itself: may the code return `got` for the spelling (sign, math value) in a position of domain `dom`?
+fn allowed(dom: &str, imag: bool, sign: &str, is_float: bool, mant: &str, e10: i64, got: &Got) -> Result<(), String> {
+    match got {
+        Got::Err => Ok(()),
+        Got::Other(what) => Err(format!("parsing succeeded but the operand is not a literal: {what}")),
+        Got::Int(v) => {
+            if is_float {
+                return Err(format!("real spelling became the integer {v}"));
+            }
+            if !matches!(dom, "signed" | "signedint" | "unsigned") {
+                return Err(format!("integer {v} in a real position"));
+            }
+            if sign == "+" || (dom == "unsigned" && !sign.is_empty()) {
+                return Err(format!("a sign that is not grammatical here was accepted (value {v})"));
+            }
+            let want: i128 = mant.parse::<i128>().map_err(|_| format!("value {v} for a magnitude beyond 128 bits"))?;
+            let want = if sign == "-" { -want } else { want };
+            if *v != want {
+                return Err(format!("value {v}, mathematical value {want}"));
+            }
+            Ok(())
+        }
+        Got::Real { neg, re, im } => {
+            if !matches!(dom, "signed" | "expr" | "imm") {
+                return Err(format!("real {re} in an integer position"));
+            }
+            if dom == "signed" && !is_float {
+                return Err(format!("integer spelling became the real {re}"));
+            }
+            if sign == "+" || (dom == "imm" && !sign.is_empty()) {
+                return Err("a sign that is not grammatical here was accepted".into());
+            }
+            if *neg != (sign == "-") {
+                return Err(format!("sign of the value (negative = {neg}) differs from the spelling"));
+            }
+            let want = nearest_f64(mant, e10);
+            let (main, zero) = if imag { (*im, *re) } else { (*re, *im) };
+            if !want.is_finite() {
+                return Err(format!("value {main} for a spelling beyond the range of f64"));
+            }
+            if main.to_bits() != want.to_bits() || zero != 0.0 {
+                return Err(format!("value {re}+{im}i, nearest double of the spelling is {want:e}"));
+            }
+            Ok(())
+        }
+    }
+}
+
+fn plain_small_decimal(sign: &str, lit: &str) -> bool {
+    sign.is_empty() && lit.chars().all(|c| c.is_ascii_digit()) && lit.len() <= 10 && lit.parse::<u64>().map(|v| v < (1 << 31)).unwrap_or(false) && !(lit.len() > 1 && lit.starts_with('0'))
+}
+
+fn judge_all(sign: &str, lit: &str, is_float: bool, mant: &str, e10: i64, exp: Option<&Value>, only: Option<&[String]>) -> Outcome {
+    let mut o = Outcome::ok(!plain_small_decimal(sign, lit));
+    for (name, dom, template) in POSITIONS {
+        if let Some(sel) = only {
+            if !sel.iter().any(|x| x == name) {
+                continue;
+            }
+        }
+        let text = render(template, sign, lit);
+        let got = observe(name, &text);
+        o.sub_evaluations += 1;
+        if let Err(why) = allowed(dom, *name == "IMAG", sign, is_float, mant, e10, &got) {
+            o.violate(
+                Violation::new("operand value", json!({"spelling": format!("{sign}{lit}"), "mantissa": mant, "e10": e10, "real": is_float}),
+                               json!(format!("{got:?}")))
+                    .note(format!("{name}: {text:?}: {why}")),
+            );
+            continue;
+        }
+        if let Some(exp) = exp {
+            let model_rejects = exp[*dom]["r"].as_str() == Some("reject");
+            let real_rejects = matches!(got, Got::Err);
+            if model_rejects != real_rejects {
+                o.diverge(format!("{name}: {text:?}: model {} but the parser {}", if model_rejects { "rejects" } else { "accepts" },
+                                  if real_rejects { "rejects" } else { "accepts" }));
+            } else if !real_rejects {
+                o.count("values_compared");
+            }
+        }
+    }
+    o
+}
+
+pub fn replay(_ctx: &Ctx, case: &Value) -> Outcome {
+    if let Some(h) = case.get("history") {
+        // a rejected recorded history: re-run the spelling of its reset event in every position
+        let lit: String = h[0]["chars"].as_array().map(|a| a.iter().map(|c| c.as_str().unwrap_or("")).collect()).unwrap_or_default();
+        let sign = h.as_array().and_then(|a| a.iter().find(|e| e["ev"] == "end")).map(|e| s(e, "sign")).unwrap_or_default();
+        return match own_math(&lit) {
+            Some((is_float, mant, e10)) => judge_all(&sign, &lit, is_float, &mant, e10, None, None),
+            None => Outcome::skip(),
+        };
+    }
+    let lit: String = util::arr(case, "chars").iter().map(|c| c.as_str().unwrap()).collect();
+    let sign = s(case, "sign");
+    let single = case["single"].as_bool().unwrap();
+    let wf = case["wf"].as_bool().unwrap();
+    if !single {
+        // the spelling is not one token (the automaton stopped early): nothing for C05 to judge
+        return Outcome::skip();
+    }
+    if !wf {
+        // one token that is not a literal of the documented grammar: the model expects a rejection everywhere
+        let mut o = Outcome::ok(true);
+        for (name, _dom, template) in POSITIONS {
+            let text = render(template, &sign, &lit);
+            o.sub_evaluations += 1;
+            if !matches!(observe(name, &text), Got::Err) {
+                o.diverge(format!("{name}: {text:?}: accepted although the spelling is outside the literal grammar"));
+            }
+        }
+        return o;
+    }
+    let is_float = case["isfloat"].as_bool().unwrap();
+    let mant = limbs_to_decimal(&case["mant"]);
+    let e10 = case["e10"].as_i64().unwrap();
+    // the position table of the model and of the harness must be the same table
+    for (name, dom, _) in POSITIONS {
+        if case["pos"][*name].as_str() != Some(dom) {
+            panic!("position table mismatch for {name}");
+        }
+    }
+    let mut o = judge_all(&sign, &lit, is_float, &mant, e10, Some(&case["exp"]), None);
+    match own_math(&lit) {
+        Some((f, m, e)) if f == is_float && m == mant && (e == e10 || m == "0") => {}
+        other => o.diverge(format!("model value ({is_float}, {mant}, {e10}) differs from the harness' own reading {other:?} of {lit:?}")),
+    }
+    o
+}
+
+// ------------------------------------------------------------------------------------------- drive
+
+fn sprinkle(r: &mut impl Rng, digits: &str, p: f64) -> String {
+    // separators anywhere after the first digit (also doubled and trailing)
+    let mut out = String::new();
+    for (k, c) in digits.chars().enumerate() {
+        out.push(c);
+        let _ = k;
+        while r.gen_bool(p) {
+            out.push('_');
+        }
+    }
+    out
+}
+
+fn random_digits(r: &mut impl Rng, n: usize, radix: u32) -> String {
+    (0..n).map(|_| char::from_digit(r.gen_range(0..radix), radix).unwrap()).collect()
+}
+
+fn random_case(r: &mut impl Rng, t: String) -> String {
+    t.chars().map(|c| if r.gen_bool(0.5) { c.to_ascii_uppercase() } else { c }).collect()
+}
+
+/// a random well-formed spelling; reals keep at most 15 mantissa digits (so that TLC can decide them exactly)
+fn random_literal(r: &mut impl Rng) -> String {
+    let p = *[0.0, 0.1, 0.3].choose(r).unwrap();
+    match r.gen_range(0..10) {
+        0..=2 => {
+            // decimal integers around and beyond 64 bits
+            let n = *[1usize, 3, 9, 10, 15, 16, 18, 19, 19, 20, 20, 21, 25].choose(r).unwrap();
+            let lead = "0".repeat(r.gen_range(0..3usize) * r.gen_range(0..2usize));
+            let mut d = random_digits(r, n, 10);
+            if r.gen_bool(0.3) {
+                d = ["9223372036854775807", "9223372036854775808", "18446744073709551615", "18446744073709551616", "4294967296"]
+                    .choose(r).unwrap().to_string();
+            }
+            sprinkle(r, &format!("{lead}{d}"), p)
+        }
+        3..=5 => {
+            let (letter, radix, lens): (&str, u32, [usize; 6]) = match r.gen_range(0..3) {
+                0 => ("x", 16, [1, 8, 15, 16, 16, 17]),
+                1 => ("b", 2, [1, 31, 63, 64, 64, 65]),
+                _ => ("o", 8, [1, 11, 21, 22, 22, 23]),
+            };
+            let n = *lens.choose(r).unwrap();
+            let digits = random_digits(r, n, radix);
+            let digits = sprinkle(r, &digits, p);
+            let digits = random_case(r, digits);
+            let letter = random_case(r, letter.to_string());
+            format!("0{letter}{digits}")
+        }
+        _ => {
+            // reals: integer part, optional fraction, optional exponent; <= 15 mantissa digits
+            let ni = r.gen_range(0..=8usize);
+            let nf = r.gen_range(if ni == 0 { 1 } else { 0 }..=7usize);
+            let id = random_digits(r, ni, 10);
+            let mut t = sprinkle(r, &id, p);
+            let has_dot = nf > 0 || r.gen_bool(0.3);
+            if has_dot {
+                t.push('.');
+                let fd = random_digits(r, nf, 10);
+                t.push_str(&sprinkle(r, &fd, p));
+            }
+            if !has_dot || r.gen_bool(0.6) {
+                t.push(if r.gen_bool(0.5) { 'e' } else { 'E' });
+                if r.gen_bool(0.3) {
+                    while r.gen_bool(p) {
+                        t.push('_');
+                    }
+                }
+                let e: i32 = if r.gen_bool(0.15) { r.gen_range(-420..420) } else { r.gen_range(-40..40) };
+                if e < 0 {
+                    t.push('-');
+                } else if r.gen_bool(0.4) {
+                    t.push('+');
+                }
+                let lead = "0".repeat(r.gen_range(0..2usize));
+                t.push_str(&sprinkle(r, &format!("{lead}{}", e.abs()), p));
+            }
+            t
+        }
+    }
+}
+
+fn f64_digits(v: f64) -> (Vec<String>, i64) {
+    // shortest round-trip decimal: digits D (no trailing zeros) and e10 with v = D * 10^e10
+    if v == 0.0 {
+        return (vec![], 0);
+    }
+    let t = format!("{:e}", v.abs());
+    let (m, e) = t.split_once('e').unwrap();
+    let e: i64 = e.parse().unwrap();
+    let (ip, fp) = m.split_once('.').unwrap_or((m, ""));
+    let digits = format!("{ip}{fp}");
+    let digits = digits.trim_end_matches('0');
+    let shift = fp.len() as i64 - (format!("{ip}{fp}").len() - digits.len()) as i64;
+    (digits.chars().map(|c| c.to_string()).collect(), e - shift)
+}
+
+fn got_json(g: &Got) -> Value {
+    match g {
+        Got::Err => json!({"t": "err"}),
+        Got::Other(_) => json!({"t": "other"}),
+        Got::Int(v) => json!({"t": "int", "neg": *v < 0,
+                               "mag": v.unsigned_abs().to_string().chars().map(|c| c.to_string()).collect::<Vec<_>>()}),
+        Got::Real { neg, re, im } => {
+            if !re.is_finite() || !im.is_finite() || (*re != 0.0 && *im != 0.0) {
+                return json!({"t": "other"});
+            }
+            let (part, v) = if *im != 0.0 { ("im", *im) } else { ("re", *re) };
+            let (digits, e10) = f64_digits(v);
+            json!({"t": "real", "neg": neg, "part": part, "digits": digits, "e10": e10})
+        }
+    }
+}
+
+pub fn drive(ctx: &Ctx) -> Summary {
+    let n = ctx.arg_u64("n", 200);
+    let per = ctx.arg_u64("positions", 6) as usize;
+    let path = ctx.arg_str("out").expect("--out");
+    let mut out = std::io::BufWriter::new(std::fs::File::create(path).expect("create trace"));
+    let mut rng = util::rng(ctx.seed, 5);
+    let mut sum = Summary::default();
+    for _ in 0..n {
+        let lit = random_literal(&mut rng);
+        let sign = *["", "", "-", "-", "+"].choose(&mut rng).unwrap();
+        let chars: Vec<String> = lit.chars().map(|c| c.to_string()).collect();
+        util::emit(&mut out, &json!({"ev": "reset", "chars": chars}));
+        for c in &chars {
+            util::emit(&mut out, &json!({"ev": "char", "c": c}));
+        }
+        util::emit(&mut out, &json!({"ev": "end", "sign": sign}));
+        util::emit(&mut out, &json!({"ev": "sane"}));
+        let mut names: Vec<&(&str, &str, &str)> = POSITIONS.iter().collect();
+        names.shuffle(&mut rng);
+        names.truncate(per);
+        let mut o = Outcome::ok(!plain_small_decimal(sign, &lit));
+        for (name, _dom, template) in names {
+            let text = render(template, sign, &lit);
+            let got = observe(name, &text);
+            util::emit(&mut out, &json!({"ev": "opinion", "pos": name, "accepted": !matches!(got, Got::Err)}));
+            util::emit(&mut out, &json!({"ev": "parsed", "pos": name, "res": got_json(&got)}));
+            o.count_n("events", 2);
+        }
+        o.count_n("events", chars.len() as u64 + 3);
+        sum.absorb(&json!({"spelling": format!("{sign}{lit}")}), &o, true);
+    }
+    sum
 }
